@@ -22,6 +22,10 @@ class Ctx:
     def summ(self, qn: str) -> Summary:
         return summarise(self.prog, self.prog.func(qn))
 
+    def spliced(self, qn: str) -> Summary:
+        from ..flow import spliced
+        return spliced(self.prog, self.prog.func(qn))
+
     def cfg(self, qn: str) -> CFG:
         return cfg_of(self.prog.func(qn))
 
@@ -179,7 +183,13 @@ def unalias(t: Any, s: Summary, fi: Optional[FuncInfo] = None) -> Any:
         if not isinstance(x, tuple):
             return x
         if x and x[0] == "var" and len(x) == 2 and x[1] in binds and x[1] not in params and len(binds[x[1]]) == 1 and depth < 6:
-            return walk(binds[x[1]][0].term[2], depth + 1)
+            v = binds[x[1]][0].term[2]
+            # only aliases of something that lives elsewhere (an access path or the result of a
+            # method call on one), never a container that is created here
+            takers = ("pop", "popitem", "popleft", "heappop", "get_nowait")
+            is_take = v[0] == "call" and ((v[1][0] == "attr" and v[1][2] in takers) or (v[1][0] == "glob" and v[1][1].rsplit(".", 1)[-1] in takers))
+            if x[1].startswith("$taken") or v[0] in ("attr", "idx", "var") or (v[0] == "call" and v[1][0] == "attr" and not is_take):
+                return walk(v, depth + 1)
         return tuple(walk(y, depth) for y in x)
 
     return walk(t, 0)
@@ -268,3 +278,19 @@ def inlined_events(ctx: "Ctx", s: Summary, lo: int = -1, hi: int = 10 ** 9) -> L
                        dict(ce.extra, via=callee.qualname, callee_event=ce))
             out.append(ne)
     return out
+
+
+def guards_equiv(g1: Sequence[Term], g2: Sequence[Term]) -> Optional[bool]:
+    """Do two guard contexts hold under exactly the same assignments of their atomic conditions?
+    (None if a condition is not understood.)"""
+    from . import tables
+    from .. import boolfn
+    if tuple(g1) == tuple(g2):
+        return True
+    try:
+        for a, fired in tables.rows([("a", tuple(g1)), ("b", tuple(g2))], []):
+            if ("a" in fired) != ("b" in fired):
+                return False
+        return True
+    except boolfn.NotBoolean:
+        return None
